@@ -50,7 +50,9 @@ prop("C19",
      + ["storage_null:NullStorageBackend." + n for n in ("get_mementos", "is_memoized", "is_all_memoized", "list_functions", "read_result", "read_metadata", "memoize")]
      + ["runner_null:NullRunnerBackend.batch_run", "storage:StorageBackend.__init__"],
      design_ref="DESIGN.md section 6, C19",
-     trusted=["the ghost write counters of the abstract MetadataSource / DataSource count every mutating interface method (interface contract)"],
+     assume_props=["C05"],
+     trusted=["clauses tagged C05 (cache/store coherence) are assumed here and proved by the C05 check over the same functions",
+              "the ghost write counters of the abstract MetadataSource / DataSource count every mutating interface method (interface contract)"],
      )
 
 MRL = "runner_local:memento_run_local"
